@@ -65,3 +65,13 @@ claim("C10",
       TB + " Label strings in the lookup harness are symbolic choices from pools (symbolic str.lower() costs >1 s/path in z3).",
       "symbolic execution (CrossHair+z3) of one namespace operation from an arbitrary valid pre-state; bit-stability invariant and lookup model",
       "DESIGN.md 3/C10")
+
+claim("C14",
+      "Bounded symbolic execution of PhylogeneticDistanceMatrix / NodeDistanceMatrix / Tree.mrca / nj_tree / upgma_tree: shapes per shard, "
+      "symbolic integer edge lengths (or missing), symbolic pairs and assemblages. Oracle via ancestor chains over raw links: path sums, edge "
+      "counts, turning node, symmetry, zero diagonal, mean pairwise and mean-nearest-taxon distances (cross-multiplied, fork-free min), maximal "
+      "pair; Tree.mrca = deepest covering node by all three query routes with never-encoded, current and stale-with-refresh encodings; NJ on a "
+      "binary tree with symbolic positive lengths returns the same unrooted splits and path lengths, UPGMA on symbolic node heights the same "
+      "clades and heights (tolerance 1e-9 because of the 1.0/(2(n-2)) float constants); CSV round trip on concrete values.",
+      TB, "symbolic execution (CrossHair+z3) of distance-matrix compilation, MRCA search, NJ and UPGMA with symbolic edge lengths against ancestor-chain oracles",
+      "DESIGN.md 3/C14")
